@@ -195,6 +195,35 @@ func check(c kmerCase) *vlib.Failure {
 			return vlib.Failf("frequencies", "relative frequencies are not proportional to the counts: %s occurs %d times and has %v, another word has %v per occurrence (seq %q)", wordOf(letters, c.K, w), n, v, unit, clip(c.Seq))
 		}
 	}
+	// the tables handed out are the caller's: it filters and rescales them; a second read gives the counts again
+	for w := range freq {
+		if freq[w] == 1 || w%2 == 0 {
+			delete(freq, w)
+		} else {
+			freq[w] = 0
+		}
+	}
+	for w := range nfreq {
+		nfreq[w] = -1
+	}
+	freq2, ok := ki.KmerFrequencies()
+	if !ok || len(freq2) != len(counts) {
+		return vlib.Failf("frequencies-second-read", "second KmerFrequencies(), after the caller filtered the first table: %d words, %v; scan finds %d (seq %q k=%d)", len(freq2), ok, len(counts), clip(c.Seq), c.K)
+	}
+	for w, n := range counts {
+		if freq2[kmerindex.Kmer(w)] != n {
+			return vlib.Failf("frequencies-second-read", "second KmerFrequencies(), after the caller edited the first table: frequency of %s = %d, scan counts %d (seq %q)", wordOf(letters, c.K, w), freq2[kmerindex.Kmer(w)], n, clip(c.Seq))
+		}
+	}
+	nfreq2, ok := ki.NormalisedKmerFrequencies()
+	if !ok || len(nfreq2) != len(counts) {
+		return vlib.Failf("frequencies-second-read", "second NormalisedKmerFrequencies(): %d words, %v; scan finds %d (seq %q k=%d)", len(nfreq2), ok, len(counts), clip(c.Seq), c.K)
+	}
+	for w, n := range counts {
+		if v := nfreq2[kmerindex.Kmer(w)]; !(v > 0) || v/float64(n)-unit > 1e-12*unit || v/float64(n)-unit < -1e-12*unit {
+			return vlib.Failf("frequencies-second-read", "second NormalisedKmerFrequencies(), after the caller edited the first tables: %s occurs %d times and has %v, want %v (seq %q)", wordOf(letters, c.K, w), n, v, unit*float64(n), clip(c.Seq))
+		}
+	}
 	if _, ok := ki.KmerIndex(); ok {
 		return vlib.Failf("state", "KmerIndex() available before Build")
 	}
